@@ -77,7 +77,17 @@ def gen_case(rng, supervised):
           est.fit(quads.copy(), weights=(w.tolist() if wkind == 'list' else w.copy()))
       L = np.asarray(est.components_)
       M = L.T.dot(L)
-      M0 = _initialize_metric_mahalanobis(quads, prior, random_state=seed, strict_pd=True, matrix_name='prior')
+      # the DOCUMENTED prior, computed without the library where the documentation defines it (the harness's own copy of a
+      # user array; identity; inverse covariance of the DISTINCT points of the quadruplets); 'random' is read from the
+      # library's generator
+      if prior_kind == 'array':
+        M0 = prior.copy()
+      elif prior_kind == 'identity':
+        M0 = np.eye(quads.shape[2])
+      elif prior_kind == 'covariance':
+        M0 = np.linalg.inv(np.atleast_2d(np.cov(np.unique(np.vstack(quads), axis=0), rowvar=False)))
+      else:
+        M0 = _initialize_metric_mahalanobis(quads, prior, random_state=seed, strict_pd=True, matrix_name='prior')
       vab = quads[:, 0] - quads[:, 1]
       vcd = quads[:, 2] - quads[:, 3]
       ww = np.ones(nq) if w is None else w
